@@ -79,3 +79,40 @@ Section LessVec.
     change 0 with (Z.of_nat 0). rewrite (elems_less_from_content (length l1) 0 ltac:(lia)). reflexivity.
   Qed.
 End LessVec.
+
+(* ---------- vector == on the element-wise path for EVERY list, floating-point fields included:
+   equal exactly when the two lists have the same length and corresponding elements hold
+   field-wise equal objects under the value type's own == ---------- *)
+Section EqVecEqv.
+  Variable L : list param.
+  Hypothesis Hwf : wf_plist L = true.
+  Variables (v1 v2 : vec) (l1 l2 : list tuple) (o1 o2 : list Z).
+  Hypothesis R1 : RepO L v1 l1 o1.
+  Hypothesis R2 : RepO L v2 l2 o2.
+
+  Theorem elems_equal_eqv :
+    elems_equal L v1 v2 = true <->
+    length l1 = length l2 /\ forall i, (i < length l1)%nat -> tuple_eqv L (nth i l1 []) (nth i l2 []).
+  Proof.
+    unfold elems_equal. rewrite (rep_vsize L v1 l1 o1 R1), (rep_vsize L v2 l2 o2 R2).
+    rewrite andb_true_iff, Z.eqb_eq, forallb_forall, Nat2Z.id. split.
+    - intros [Hlen Hall]. apply Nat2Z.inj in Hlen. split; [exact Hlen|]. intros i Hi.
+      assert (Hi2 : (i < length l2)%nat) by (rewrite <- Hlen; exact Hi).
+      destruct (rep_ref L Hwf v1 l1 o1 i R1 Hi) as (Ht1 & He1 & Hf1).
+      destruct (rep_ref L Hwf v2 l2 o2 i R2 Hi2) as (Ht2 & He2 & Hf2).
+      specialize (Hall i ltac:(apply in_seq; lia)). unfold ref_equal in Hall. rewrite Hf1, Hf2 in Hall.
+      exact (proj1 (elem_equal_content_eqv L Hwf _ _ _ _ Ht1 Ht2 _ _ _ _ He1 He2) Hall).
+    - intros [Hlen Hall]. split; [rewrite Hlen; reflexivity|]. intros i Hi. apply in_seq in Hi.
+      assert (Hi1 : (i < length l1)%nat) by lia. assert (Hi2 : (i < length l2)%nat) by (rewrite <- Hlen; exact Hi1).
+      destruct (rep_ref L Hwf v1 l1 o1 i R1 Hi1) as (Ht1 & He1 & Hf1).
+      destruct (rep_ref L Hwf v2 l2 o2 i R2 Hi2) as (Ht2 & He2 & Hf2).
+      unfold ref_equal. rewrite Hf1, Hf2.
+      exact (proj2 (elem_equal_content_eqv L Hwf _ _ _ _ Ht1 Ht2 _ _ _ _ He1 He2) (Hall i Hi1)).
+  Qed.
+
+  Theorem vec_equal_eqv_elementwise :
+    (forallb eqm L && padfree L && list_eqb (v_fixed v1) (v_fixed v2)) = false ->
+    (vec_equal L v1 v2 = true <->
+     length l1 = length l2 /\ forall i, (i < length l1)%nat -> tuple_eqv L (nth i l1 []) (nth i l2 [])).
+  Proof. intros Hc. unfold vec_equal. rewrite Hc. exact elems_equal_eqv. Qed.
+End EqVecEqv.
